@@ -179,11 +179,11 @@ func ChooseRandomMapKeyN[M ~map[K]V, K comparable, V any](m M, n int) (result []
 	result = make([]K, n)
 	i := 0
 	for k := range m {
-		result[i] = k
-		i++
 		if i == n {
 			break
 		}
+		result[i] = k
+		i++
 	}
 	return
 }
@@ -200,11 +200,11 @@ func ChooseRandomMapValueN[M ~map[K]V, K comparable, V any](m M, n int) (result 
 	result = make([]V, n)
 	i := 0
 	for _, v := range m {
-		result[i] = v
-		i++
 		if i == n {
 			break
 		}
+		result[i] = v
+		i++
 	}
 	return
 }
@@ -232,11 +232,11 @@ func ChooseRandomMapKeyAndValueN[M ~map[K]V, K comparable, V any](m M, n int) M 
 	result := make(M, n)
 	i := 0
 	for k, v := range m {
-		result[k] = v
-		i++
 		if i == n {
 			break
 		}
+		result[k] = v
+		i++
 	}
 	return result
 }
